@@ -3,7 +3,6 @@
 impl DefaultV for ContextID { open spec fn is_default(&self) -> bool { fresh_context_id(self.0 as int) } fn default_value() -> (r: Self) { ContextID::default() } }
 // the global id counter `static CONTEXT_ID: LazyLock<AtomicU64>`: fetch_add(n) returns the value before the addition, atomically; with
 // n >= 1 no two calls (from any task) ever return the same value (u64 wrap-around after 2^64 contexts is not modelled)
-pub uninterp spec fn fresh_context_id(id: int) -> bool;
 pub struct AtomicU64V;
 pub enum OrderingV { Relaxed, Acquire, Release, AcqRel, SeqCst }
 impl AtomicU64V {
